@@ -32,6 +32,11 @@ CHECKS = {
          "Runs the real server and, for views of 0-12 messages with UID gaps, issues FETCH/STORE/COPY/MOVE/SEARCH/UID EXPUNGE (sequence and UID forms) with generated sets whose numbers include 0, n+1, 2^31+-1, 2^32+-1, 2^32+k, 2^63+-1, 2^64+k, 10^30; the messages actually affected (rows returned, flags set, messages copied/moved/expunged, search results) must equal what an independent resolver computes, an invalid sequence number must give BAD and leave source and destination unchanged. Thorough adds all sets of <=2 ranges over {1..n+2,*} for n<=4.",
          "Trusts the resolver's reading of RFC 3501 (the n:* case above the highest UID is not judged, as the property says); numbers outside nz-number in UID sets may be refused or resolved mathematically.",
          "DESIGN.md §4 C16"),
+ "C13": ("exploration",
+         "wire-level relational monitor: generated MIME messages with section bytes known by construction; every FETCH relation of the property checked against the generator's bytes",
+         "APPENDs generated MIME trees (multipart / message-rfc822 / leaf parts, nesting <= 4, folded headers, CRLF and LF, 8-bit data, a leaf across the store's 256 KiB block edge) to the real server and checks on the wire: BODY[] = appended bytes + one server ID line, RFC822 = BODY[], RFC822.SIZE, HEADER+TEXT, every BODY[p] / [p.MIME] / [p.HEADER] / [p.TEXT], partials with o,n in {0,1,len-1,len,len+1,2^31,2^63-1}, HEADER.FIELDS / .NOT partition, literal framing. Quick ~700 messages / 15k fetches.",
+         "Trusts the generator's construction of part boundaries (the line break before a delimiter belongs to the delimiter) and the harness wire parser; top-level message/rfc822 content types are not generated (ambiguous numbering).",
+         "DESIGN.md §4 C13"),
 }
 
 ALL = ["C%02d" % i for i in range(1, 21)]
